@@ -84,6 +84,8 @@ type objType struct {
 	ifaces   []string
 	fields   []*field
 	skuSubs  []int // subgraphs that also declare @key(fields:"sku")
+	// keyVariant[s]: how subgraph s declares the second key (0 first, 1 unresolvable, 2 both)
+	keyVariant map[int]int
 	keyOnly  bool
 	fieldSet map[string]*field
 }
@@ -222,7 +224,7 @@ func Gen(t *rapid.T, o Options) *Layout {
 			f.typ, f.named = "[["+e+"!]]", e
 		case k == 19:
 			m.feat["excluded:nested-entity-list"] = true
-			if nv > 0 && rapid.Bool().Draw(t, "nestedval") {
+			if nv > 0 && rapid.Bool().Draw(t, "nestedval") && !o.Exclude["nested-value-list"] {
 				// a list of lists of a value type that holds scalars only (no entity fetch below
 				// the inner list, which is the excluded class)
 				v := valNames[nv-1]
@@ -342,6 +344,10 @@ func Gen(t *rapid.T, o Options) *Layout {
 			}
 			if len(ot.skuSubs) == 0 {
 				ot.skuSubs = []int{owner("skuown")}
+			}
+			ot.keyVariant = map[int]int{}
+			for _, s := range ot.skuSubs {
+				ot.keyVariant[s] = rapid.IntRange(0, 5).Draw(t, "keyvariant")
 			}
 			m.feat["second-key"] = true
 		}
@@ -791,8 +797,31 @@ func (m *model) build() *Layout {
 			if !resolvable {
 				keyDir = `@key(fields: "id", resolvable: false)`
 			}
+			// the second key may come first and may be declared without a resolver (id stays
+			// resolvable wherever it was, so every entity remains reachable)
+			skuFirst, skuResolvable := false, true
+			if sku && resolvable && len(own) > 0 {
+				switch o.keyVariant[s] {
+				case 0:
+					skuFirst = true
+				case 1:
+					skuResolvable = false
+				case 2:
+					skuFirst, skuResolvable = true, false
+				}
+			}
 			if sku {
-				keyDir += ` @key(fields: "sku")`
+				skuDir := `@key(fields: "sku")`
+				if !skuResolvable {
+					skuDir = `@key(fields: "sku", resolvable: false)`
+					m.feat["second-key-unresolvable"] = true
+				}
+				if skuFirst {
+					keyDir = skuDir + " " + keyDir
+					m.feat["second-key-first"] = true
+				} else {
+					keyDir += " " + skuDir
+				}
 			}
 			fmt.Fprintf(&sdl, "type %s%s %s { id: ID!", o.name, impl, keyDir)
 			tf := TypeField{TypeName: o.name, FieldNames: []string{"id"}}
@@ -828,9 +857,15 @@ func (m *model) build() *Layout {
 			}
 			sdl.WriteString(" }\n")
 			md.RootNodes = append(md.RootNodes, tf)
-			md.Keys = append(md.Keys, FedCfg{TypeName: o.name, SelectionSet: "id", DisableEntityResolver: !resolvable})
-			if sku {
-				md.Keys = append(md.Keys, FedCfg{TypeName: o.name, SelectionSet: "sku"})
+			idKey := FedCfg{TypeName: o.name, SelectionSet: "id", DisableEntityResolver: !resolvable}
+			skuKey := FedCfg{TypeName: o.name, SelectionSet: "sku", DisableEntityResolver: !skuResolvable}
+			switch {
+			case sku && skuFirst:
+				md.Keys = append(md.Keys, skuKey, idKey)
+			case sku:
+				md.Keys = append(md.Keys, idKey, skuKey)
+			default:
+				md.Keys = append(md.Keys, idKey)
 			}
 			if !resolvable {
 				m.feat["resolvable-false"] = true
